@@ -1,5 +1,5 @@
 SPECIFICATION Spec
-CONSTANTS ThreadsC = {0, 1}  NLpC = 3  OwnerOf <- M2_Owner  InitEv <- M2_Init  Trans <- M2_Trans  MaxMsg = 16  CkptEvery = 2  MaxGvt = 0
+CONSTANTS ThreadsC = {0, 1}  NLpC = 3  OwnerOf <- M2_Owner  InitEv <- M2_Init  Trans <- M2_Trans  MaxMsg = 16  CkptEvery = 2  MaxGvt = 0  RecordSched = FALSE
 INVARIANT NoCheckFails
 INVARIANT PoolSufficient
 INVARIANT C01_FinalEqualsSequential
